@@ -9,33 +9,61 @@
    DispatchLock = FALSE is the design before the repair (W11): no dispatchMu, Pause
    returns right after raising the flag — TLC refutes Quiescent and NoStartWhilePaused
    for it (negative control, and the hypothesis that was reproduced on the real engine
-   with gated handlers).  DispatchLock = TRUE is the current design.              *)
+   with gated handlers).  DispatchLock = TRUE is the current design.
+   waitForResume is four steps: wlock (take pauseMu) -> wcheck (read `paused` under the
+   lock; leave if 0) -> wadd (cond.Wait: enter the condition's wait list and release
+   pauseMu) -> wpark (sleep until a Broadcast that came after wadd) -> wlock.  PStore and
+   Continue take pauseMu (ContinueLock = TRUE, the current design): Continue's store and
+   Broadcast then cannot fall between wcheck and wadd.  ContinueLock = FALSE is a Continue
+   that stores and broadcasts without the mutex ("the flag is atomic, Broadcast needs no
+   lock"): TLC refutes EventuallyDone for it — the run loop reads paused = 1, Continue
+   clears it and broadcasts to an empty wait list, the loop enters the list and sleeps
+   for ever (negative control SerialPause_nolock.cfg; hunted on the real engine by the
+   pause storms of checks/c05.py).                                                  *)
 EXTENDS Naturals, TLC
-CONSTANTS NEvents, Pauses, DispatchLock
-VARIABLES lpc, left, flag, ppc, running, pleft, dmu
-vars == <<lpc, left, flag, ppc, running, pleft, dmu>>
+CONSTANTS NEvents, Pauses, DispatchLock, ContinueLock
+VARIABLES lpc, left, flag, ppc, running, pleft, dmu, pmu, waiting, woken
+vars == <<lpc, left, flag, ppc, running, pleft, dmu, pmu, waiting, woken>>
 Init == lpc = "chk" /\ left = NEvents /\ flag = 0 /\ ppc = "idle" /\ running = FALSE /\ pleft = Pauses /\ dmu = "free"
-Chk    == lpc = "chk" /\ lpc' = (IF left = 0 THEN "done" ELSE "load") /\ UNCHANGED <<left, flag, ppc, running, pleft, dmu>>
-Load   == lpc = "load" /\ lpc' = (IF flag = 1 THEN "wait" ELSE IF DispatchLock THEN "dlock" ELSE "hstart")
+        /\ pmu = "free" /\ waiting = FALSE /\ woken = FALSE
+cv == <<pmu, waiting, woken>>
+AfterWait == IF DispatchLock THEN "dlock" ELSE "hstart"
+Chk    == lpc = "chk" /\ lpc' = (IF left = 0 THEN "done" ELSE "load") /\ UNCHANGED <<left, flag, ppc, running, pleft, dmu, cv>>
+Load   == lpc = "load" /\ lpc' = (IF flag = 1 THEN "wlock" ELSE AfterWait)
+          /\ UNCHANGED <<left, flag, ppc, running, pleft, dmu, cv>>
+WLock  == lpc = "wlock" /\ pmu = "free" /\ pmu' = "loop" /\ lpc' = "wcheck" /\ UNCHANGED <<left, flag, ppc, running, pleft, dmu, waiting, woken>>
+WCheck == lpc = "wcheck" /\ (IF flag = 1 THEN lpc' = "wadd" /\ UNCHANGED pmu ELSE lpc' = AfterWait /\ pmu' = "free")
+          /\ UNCHANGED <<left, flag, ppc, running, pleft, dmu, waiting, woken>>
+WAdd   == lpc = "wadd" /\ waiting' = TRUE /\ woken' = FALSE /\ pmu' = "free" /\ lpc' = "wpark"
           /\ UNCHANGED <<left, flag, ppc, running, pleft, dmu>>
-WaitR  == lpc = "wait" /\ flag = 0 /\ lpc' = (IF DispatchLock THEN "dlock" ELSE "hstart")
-          /\ UNCHANGED <<left, flag, ppc, running, pleft, dmu>>
-DLock  == lpc = "dlock" /\ dmu = "free" /\ dmu' = "loop" /\ lpc' = "recheck" /\ UNCHANGED <<left, flag, ppc, running, pleft>>
+WPark  == lpc = "wpark" /\ woken /\ woken' = FALSE /\ lpc' = "wlock" /\ UNCHANGED <<left, flag, ppc, running, pleft, dmu, pmu, waiting>>
+DLock  == lpc = "dlock" /\ dmu = "free" /\ dmu' = "loop" /\ lpc' = "recheck" /\ UNCHANGED <<left, flag, ppc, running, pleft, cv>>
 Recheck == lpc = "recheck" /\ (IF flag = 1 THEN lpc' = "chk" /\ dmu' = "free" ELSE lpc' = "hstart" /\ UNCHANGED dmu)
-           /\ UNCHANGED <<left, flag, ppc, running, pleft>>
-HStart == lpc = "hstart" /\ running' = TRUE /\ lpc' = "hend" /\ UNCHANGED <<left, flag, ppc, pleft, dmu>>
+           /\ UNCHANGED <<left, flag, ppc, running, pleft, cv>>
+HStart == lpc = "hstart" /\ running' = TRUE /\ lpc' = "hend" /\ UNCHANGED <<left, flag, ppc, pleft, dmu, cv>>
 HEnd   == lpc = "hend" /\ running' = FALSE /\ left' = left - 1 /\ lpc' = "chk"
-          /\ dmu' = (IF DispatchLock THEN "free" ELSE dmu) /\ UNCHANGED <<flag, ppc, pleft>>
-PStore   == ppc = "idle" /\ pleft > 0 /\ flag' = 1 /\ pleft' = pleft - 1
-            /\ ppc' = (IF DispatchLock THEN "pwait" ELSE "paused") /\ UNCHANGED <<lpc, left, running, dmu>>
-PWait    == ppc = "pwait" /\ dmu = "free" /\ ppc' = "paused" /\ UNCHANGED <<lpc, left, flag, running, pleft, dmu>>
-Continue == ppc = "paused" /\ flag' = 0 /\ ppc' = "idle" /\ UNCHANGED <<lpc, left, running, pleft, dmu>>
-Next == Chk \/ Load \/ WaitR \/ DLock \/ Recheck \/ HStart \/ HEnd \/ PStore \/ PWait \/ Continue
-        \/ (lpc = "done" /\ ppc # "pwait" /\ UNCHANGED vars)
-Spec == Init /\ [][Next]_vars /\ WF_vars(Chk \/ Load \/ WaitR \/ DLock \/ Recheck \/ HStart \/ HEnd)
-        /\ WF_vars(Continue) /\ WF_vars(PWait)
+          /\ dmu' = (IF DispatchLock THEN "free" ELSE dmu) /\ UNCHANGED <<flag, ppc, pleft, cv>>
+(* Pause: the store is made under pauseMu (lock, store, unlock: one step, nothing else touches the flag under it) *)
+PStore   == ppc = "idle" /\ pleft > 0 /\ pmu = "free" /\ flag' = 1 /\ pleft' = pleft - 1
+            /\ ppc' = (IF DispatchLock THEN "pwait" ELSE "paused") /\ UNCHANGED <<lpc, left, running, dmu, cv>>
+PWait    == ppc = "pwait" /\ dmu = "free" /\ ppc' = "paused" /\ UNCHANGED <<lpc, left, flag, running, pleft, dmu, cv>>
+Broadcast == woken' = (woken \/ waiting) /\ waiting' = FALSE
+(* Continue under pauseMu: lock, store, Broadcast, unlock — one step, since every step of the loop that reads the flag
+   for the wait decision or enters the wait list holds the same mutex *)
+Continue == ContinueLock /\ ppc = "paused" /\ pmu = "free" /\ flag' = 0 /\ Broadcast /\ ppc' = "idle"
+            /\ UNCHANGED <<lpc, left, running, pleft, dmu, pmu>>
+(* Continue without the mutex: two steps any step of the loop may fall between *)
+CStore   == ~ContinueLock /\ ppc = "paused" /\ flag' = 0 /\ ppc' = "cbcast" /\ UNCHANGED <<lpc, left, running, pleft, dmu, cv>>
+CBcast   == ppc = "cbcast" /\ Broadcast /\ ppc' = "idle" /\ UNCHANGED <<lpc, left, flag, running, pleft, dmu, pmu>>
+LoopStep == Chk \/ Load \/ WLock \/ WCheck \/ WAdd \/ WPark \/ DLock \/ Recheck \/ HStart \/ HEnd
+Next == LoopStep \/ PStore \/ PWait \/ Continue \/ CStore \/ CBcast
+        \/ (lpc = "done" /\ ppc \notin {"pwait", "cbcast"} /\ UNCHANGED vars)
+Spec == Init /\ [][Next]_vars /\ WF_vars(LoopStep)
+        /\ WF_vars(Continue) /\ WF_vars(CStore) /\ WF_vars(CBcast) /\ WF_vars(PWait)
 Quiescent == ppc = "paused" => ~running
 NoStartWhilePaused == [][ppc = "paused" => ~(lpc = "hstart" /\ lpc' = "hend")]_vars
 EventuallyDone == <>(lpc = "done")
 PauseReturns == (ppc = "pwait") ~> (ppc = "paused")
+(* a sleeping run loop is never left behind by a finished Continue: asleep with the flag clear and nobody about to broadcast *)
+NoLostWakeup == ~(lpc = "wpark" /\ ~woken /\ flag = 0 /\ ppc = "idle")
 =============================================================================
